@@ -6,6 +6,7 @@ mod ops_centroid;
 mod ops_distance;
 mod ops_hull;
 mod ops_kernel;
+mod ops_linemeasure;
 mod ops_c18;
 mod ops_poly;
 mod ops_relate;
@@ -80,6 +81,7 @@ fn dispatch_case(cx: &mut Ctx, n: u64, case: &Value) {
         "hull" => ops_hull::hull_case(cx, n, case),
         "simplify" => ops_simplify::simplify_case(cx, n, case),
         "valid" => ops_valid::valid_case(cx, n, case),
+        "linemeasure" => ops_linemeasure::linemeasure_case(cx, n, case),
         "poly" => ops_poly::poly_case(cx, n, case),
         "relate" => ops_relate::relate_case(cx, n, case),
         "coordpos" => ops_relate::coordpos_case(cx, n, case),
